@@ -144,8 +144,11 @@ class Ref:
                 w *= self.level_weight[f][l]
             weight[c] = w
         removed = len(poss) != len(combos)
+        direct = [c for c in combos if not any((f, l) in excluded for f, l in zip(crossing, c))]
+        indirect = poss_a != direct or poss_b != direct or poss_sep != direct
         p = max([self.start[f] for f in crossing], default=0)
-        return {"factors": list(crossing), "poss": weight, "S": sum(weight.values()), "p": p, "removed": removed}
+        return {"factors": list(crossing), "poss": weight, "S": sum(weight.values()), "p": p, "removed": removed,
+                "removed_indirect": indirect}
 
     # ------------------------------------------------------------------ compilation of blocks
     def compile(self, b):
